@@ -655,7 +655,7 @@ def gen_deep(rng, tier, n_classes):
     return cases
 
 
-VIA_KINDS = ["plain", "partial", "allrequired", "extend", "omit", "pick", "subclass", "local"]
+VIA_KINDS = ["plain", "partial", "allrequired", "extend", "omit", "pick", "omit-method", "pick-method", "subclass", "local"]
 # class names a user may choose (type() accepts any string): word-only names keep the field; names with a
 # character outside [\\w.] are the region of the open finding field-lost:non-word-name
 ODD_CLASS_NAMES = ["Foo_1", "F9", "_Priv", "\u00dcn\u00ef", "Foo.Bar", "x\u0301Cls", "My Class", "a-b", "Gen[int]"]
@@ -691,12 +691,12 @@ def gen_names(rng, tier):
                 continue
             names = list(base)
             kind = "plain" if via.startswith("name:") else via
-            v = {"kind": kind, "name": rng.choice([None, None, "Renamed", "Bar_9"]) if kind in ("partial", "allrequired", "extend", "omit", "pick") else None}
-            if kind in ("omit", "pick") and len(names) > 1:
+            v = {"kind": kind, "name": rng.choice([None, None, "Renamed", "Bar_9"]) if kind in ("partial", "allrequired", "extend", "omit", "pick", "omit-method", "pick-method") else None}
+            if kind.split("-")[0] in ("omit", "pick") and len(names) > 1:
                 v["keys"] = sorted(rng.sample(names, 1))
-            elif kind in ("omit", "pick"):
+            elif kind.split("-")[0] in ("omit", "pick"):
                 continue
-            kept = [n for n in names if (kind != "omit" or n not in v["keys"]) and (kind != "pick" or n in v["keys"])]
+            kept = [n for n in names if (not kind.startswith("omit") or n not in v["keys"]) and (not kind.startswith("pick") or n in v["keys"])]
             decl_of = dict((n, fd) for n, fd in cls["fields"])
             for sub in [[x] for x in kept[:2]] + ([kept[:2]] if len(kept) > 1 else []):
                 kw = {n: base[n] for n in kept}
@@ -728,6 +728,10 @@ def derive_class(cls, via):
         return Omit[cls, keys, name] if name else Omit[cls, keys]
     if kind == "pick":
         return Pick[cls, keys, name] if name else Pick[cls, keys]
+    if kind == "omit-method":     # the classmethods name the class themselves
+        return cls.omit(*keys, class_name=name) if name else cls.omit(*keys)
+    if kind == "pick-method":
+        return cls.pick(*keys, class_name=name) if name else cls.pick(*keys)
     if kind == "subclass":
         return type(cls.__name__ + "Sub", (Partial[cls],), {})
     if kind == "local":
@@ -1092,7 +1096,7 @@ def line(case, impl):
     if case.get("via"):
         # a derived class: its NAME is the model's (Lean `derivedName`), not read off the real class
         v = case["via"]
-        l["via"] = v["kind"]
+        l["via"] = v["kind"].split("-")[0]
         l["baseName"] = case["cls"]["name"] + ("Sub" if v["kind"] == "subclass" else "")
         if v["kind"] == "subclass":
             l["via"] = "plain"
